@@ -275,13 +275,17 @@ Lemma scrolled_measures : forall (a b : list pt) (m : pt),
 Proof.
   intros a b m. destruct a as [|h a']; cbn zeta.
   - cbn [app hd]. rewrite app_nil_r. repeat split; reflexivity.
-  - cbn [app hd].
-    replace (h :: (a' ++ m :: b) ++ [h]) with ((h :: a') ++ m :: (b ++ [h])) by (cbn [app]; rewrite <- app_assoc; reflexivity).
-    replace (m :: (b ++ h :: a') ++ [m]) with ((m :: b) ++ h :: (a' ++ [m])) by (cbn [app]; rewrite <- app_assoc; reflexivity).
-    rewrite !shoelace_split, !seg_d2s_split. split; [|split].
-    + cbn [app]. lia.
-    + cbn [app]. apply Permutation_app_comm.
-    + rewrite !app_length. cbn [length]. rewrite !app_length. cbn [length]. lia.
+  - assert (E1 : (h :: (a' ++ m :: b) ++ [h] : list pt) = (h :: a') ++ m :: (b ++ [h])) by (cbn [app]; rewrite <- app_assoc; reflexivity).
+    assert (E2 : (m :: (b ++ h :: a') ++ [m] : list pt) = (m :: b) ++ h :: (a' ++ [m])) by (cbn [app]; rewrite <- app_assoc; reflexivity).
+    assert (F : shoelace ((m :: b) ++ h :: (a' ++ [m])) = shoelace ((h :: a') ++ m :: (b ++ [h])) /\
+                Permutation (seg_d2s ((m :: b) ++ h :: (a' ++ [m]))) (seg_d2s ((h :: a') ++ m :: (b ++ [h]))) /\
+                length ((m :: b) ++ h :: (a' ++ [m])) = length ((h :: a') ++ m :: (b ++ [h]))).
+    { rewrite (shoelace_split (h :: a') m (b ++ [h])), (shoelace_split (m :: b) h (a' ++ [m])).
+      rewrite (seg_d2s_split (h :: a') m (b ++ [h])), (seg_d2s_split (m :: b) h (a' ++ [m])). split; [|split].
+      - cbn [app]. lia.
+      - cbn [app]. apply Permutation_app_comm.
+      - rewrite !app_length. cbn [length]. rewrite !app_length. cbn [length]. lia. }
+    rewrite <- E1, <- E2 in F. exact F.
 Qed.
 Lemma ring_core_measures : forall k cw r, ring_core k r -> (2 <= k)%nat ->
   Z.abs (shoelace (norm_ring cw r)) = Z.abs (shoelace r) /\ Permutation (seg_d2s (norm_ring cw r)) (seg_d2s r) /\
@@ -349,12 +353,12 @@ Proof.
   - apply norm_hyp_coll in H. rewrite Forall_forall in IH, H.
     assert (P := isort_perm cmp_geom (map normalize gs)). split; [|split].
     + f_equal. rewrite <- (Permutation_length (Permutation_flat_map coords P)). rewrite flat_map_concat_map, map_map, <- flat_map_concat_map.
-      clear P. induction gs as [|x r IHr]; [reflexivity|]. cbn [flat_map]. rewrite !app_length. rewrite IHr by (intros; [apply IH|apply H]; right; assumption).
+      clear P. induction gs as [|x r IHr]; [reflexivity|]. cbn [flat_map]. rewrite !app_length. rewrite IHr; [|intros; apply IH; [right; assumption|assumption]|intros; apply H; right; assumption].
       destruct (IH x (or_introl eq_refl) (H x (or_introl eq_refl))) as (E & _). apply Nat2Z.inj in E. rewrite E. reflexivity.
     + f_equal. rewrite <- (sum_perm num_geoms_deep _ _ P). rewrite (sum_map num_geoms_deep normalize gs). apply sum_map_ext. intros x Hx. apply IH; auto.
     + destruct (t =? 4); [reflexivity|]. destruct (t =? 5); [reflexivity|]. destruct (t =? 6); [reflexivity|].
       rewrite <- (max_perm dimension (-1) _ _ P). clear P. induction gs as [|x r IHr]; [reflexivity|]. cbn [map fold_right].
-      rewrite IHr by (intros; [apply IH|apply H]; right; assumption).
+      rewrite IHr; [|intros; apply IH; [right; assumption|assumption]|intros; apply H; right; assumption].
       destruct (IH x (or_introl eq_refl) (H x (or_introl eq_refl))) as (_ & _ & ->). reflexivity.
 Qed.
 
@@ -374,12 +378,14 @@ Proof.
   apply andb_true_iff in Hok. destruct Hok as [Hok Hd]. apply andb_true_iff in Hok. destruct Hok as [Hc Hl].
   apply Nat.eqb_eq in Hc. apply Nat.leb_le in Hl. apply eqb_prop in Hd.
   exists (removelast r). split; [|split; [exact Hc|split; [exact Hl|exact Hd]]].
-  rewrite (app_removelast_last (0,0) Hne) at 1. f_equal. f_equal.
+  rewrite (@app_removelast_last pt r (0,0) Hne) at 1. f_equal. f_equal.
   assert (Hcl' : f = last r f).
   { unfold is_closed in Hcl. rewrite Er in Hcl. apply pt_eqb_eq in Hcl. rewrite Er. exact Hcl. }
   assert (Hlen : (2 <= length r)%nat).
-  { rewrite (app_removelast_last (0,0) Hne), app_length. cbn [length]. lia. }
-  rewrite (hd_removelast r (0,0) Hlen). rewrite (last_indep r (0,0) f Hne), <- Hcl'. rewrite Er. reflexivity.
+  { pose proof (f_equal (@length pt) (@app_removelast_last pt r (0,0) Hne)) as HL. rewrite app_length in HL. cbn [length] in HL. lia. }
+  apply (eq_trans (y := f)).
+  - rewrite (last_indep r (0,0) f Hne). symmetry. exact Hcl'.
+  - symmetry. etransitivity; [exact (hd_removelast r (0,0) Hlen)|]. rewrite Er. reflexivity.
 Qed.
 Example norm_hyp_ex : norm_hyp (GColl 7 [GPoint [(1,1)]; GLine [(5,5); (2,2)]; GPoly [(0,0); (4,0); (4,3); (0,0)] [[(2,1); (3,1); (3,2); (2,1)]]]).
 Proof.
